@@ -47,7 +47,7 @@ def run_one(sid, tier, prop=None):
 ALT = [("ipfsconn/ipfshttp", ["C16"]), ("allocate.go", ["C03"]), ("allocator/", ["C03"]), ("consensus/raft/log_op.go", ["C01"]),
        ("consensus/raft/data_helper.go", ["C14"]), ("consensus/raft/", ["C01", "C17"]), ("consensus/crdt/", ["C02", "C07"]),
        ("state/dsstate", ["C01", "C02", "C14", "C08"]), ("config.go", ["C15"]), ("config/", ["C15"]), ("monitor/", ["C09", "C03"]),
-       ("pintracker/", ["C05", "C06", "C18"]), ("api/add.go", ["C11", "C13"]), ("api/types.go", ["C08", "C11", "C04", "C06", "C16"]), ("rpc_api.go", ["C07", "C03"]),
+       ("pintracker/", ["C05", "C06", "C18"]), ("api/add.go", ["C11", "C13"]), ("api/types.go", ["C06", "C16", "C08", "C11", "C04"]), ("rpc_api.go", ["C07", "C03"]),
        ("api/rest", ["C11"]), ("api/ipfsproxy", ["C12"]), ("adder/", ["C13"]), ("cmdutils/", ["C14", "C08"]),
        ("pstoremgr/", ["C14"]), ("informer/", ["C18", "C09"]), ("cluster.go", ["C04", "C10", "C18", "C09"])]
 
@@ -61,7 +61,7 @@ def alternatives(sid, prop):
                 for q in props:
                     if q != prop and q not in out:
                         out.append(q)
-    return out[:3]
+    return out[:4]
 
 
 def main():
